@@ -9,7 +9,7 @@
    Key-size guard: 11 <= numBytes n <= 65535 (80-bit to 524280-bit moduli). *)
 From Coq Require Import String ZArith List Bool.
 From TV Require Import Base.Prelude Base.C11_Lib Gen.ConstantTime Gen.C11_RsaDecrypt Gen.C11_RsaKex
-  Spec.C11_Pkcs1Dec Model.C11_ServerTail Proofs.CtOps Proofs.C11_LibFacts Proofs.C11_Decrypt Proofs.C11_Kex Proofs.C11_Format Proofs.C11_Top.
+  Spec.C11_Pkcs1Dec Model.C11_ServerTail Proofs.CtOps Proofs.C11_LibFacts Proofs.C11_Decrypt Proofs.C11_Kex Proofs.C11_Format Proofs.C11_Top Gen.C11_RsaPrivOp Proofs.C11_PrivOp.
 Import ListNotations.
 Open Scope Z_scope.
 
@@ -121,6 +121,52 @@ Theorem server_choice_noninterference :
   (forall dec cv sv tb cke epms later e,
      ~ In (Crash e) (server_after_cke dec rnd master_of unprotect verify_data finished_body cv sv tb cke epms later)).
 Proof. exact server_choice_noninterference_all. Qed.
+
+(* ---- the private operation decrypt calls (Python_RSAKey._rawPrivateKeyOp, regenerated with the blinding
+   pair as threaded state; lock obligation checked by the translator): for every consistent state of the
+   key object the result is helper(m) mod n -- independent of the blinding pair -- and the state stays
+   consistent; hence over any history of calls, and for decrypt, the outcome is a function of key and
+   input only *)
+Theorem raw_private_op_deterministic : forall helper grn invMod powMod n e,
+  1 < n -> (forall x y, helper ((x * y) mod n) mod n = (helper x * helper y) mod n) ->
+  blind_ok helper n (powMod (invMod (grn 2 n) n) e n) (grn 2 n) ->
+  forall b u m, state_ok helper n (b, u) ->
+  exists b' u', rawPrivateKeyOp helper grn invMod powMod n e b u m = Ok (helper m mod n, (b', u'))
+                /\ blind_ok helper n b' u'.
+Proof. exact raw_private_op_spec. Qed.
+
+Theorem raw_ops_history_deterministic : forall helper grn invMod powMod n e,
+  1 < n -> (forall x y, helper ((x * y) mod n) mod n = (helper x * helper y) mod n) ->
+  blind_ok helper n (powMod (invMod (grn 2 n) n) e n) (grn 2 n) ->
+  forall ms st, state_ok helper n st ->
+  exists st', run_ops helper grn invMod powMod n e st ms = Ok (map (fun m => helper m mod n) ms, st')
+              /\ state_ok helper n st'.
+Proof. exact run_ops_spec. Qed.
+
+Theorem decrypt_independent_of_blinding : forall helper grn invMod powMod n e,
+  1 < n -> (forall x y, helper ((x * y) mod n) mod n = (helper x * helper y) mod n) ->
+  blind_ok helper n (powMod (invMod (grn 2 n) n) e n) (grn 2 n) ->
+  forall hash hmac st1 st2 d enc,
+  (forall k m, zlen (hmac k m) = 32) -> (forall k m, all_bytes (hmac k m) = true) ->
+  11 <= numBytes n <= 65535 -> 0 <= d ->
+  state_ok helper n st1 -> state_ok helper n st2 ->
+  decrypt hash hmac (raw_of helper grn invMod powMod n e st1) true n d "rsa"%string enc =
+  decrypt hash hmac (raw_of helper grn invMod powMod n e st2) true n d "rsa"%string enc /\
+  decrypt hash hmac (raw_of helper grn invMod powMod n e st1) true n d "rsa"%string enc =
+  Ok (spec_decrypt hash hmac (fun m => helper m mod n) n d enc).
+Proof. exact decrypt_independent_of_blinding_all. Qed.
+
+(* the hypotheses on the private-operation oracles are satisfiable (d = e = 1, n = 5, unblinder 2, blinder 3) *)
+Example toy_privop_hyps :
+  let helper := fun x => x mod 5 in
+  1 < 5 /\ (forall x y, helper ((x * y) mod 5) mod 5 = (helper x * helper y) mod 5) /\
+  blind_ok helper 5 ((fun _ _ _ => 3) ((fun _ _ => 3) 2 5) 1 5) ((fun _ _ => 2) 2 5) /\
+  state_ok helper 5 (0, 0) /\ state_ok helper 5 (3, 2) /\ ~ blind_ok helper 5 4 2.
+Proof.
+  cbv zeta. split; [reflexivity|]. split.
+  - intros x y. rewrite !Z.mod_mod by discriminate. apply Z.mul_mod. discriminate.
+  - split; [reflexivity|]. split; [left; reflexivity|]. split; [right; reflexivity|]. intros H. discriminate H.
+Qed.
 
 (* ---- the hypotheses are satisfiable, and the statements are not vacuous ------------- *)
 Definition toy_hmac (k m : list Z) : list Z :=
